@@ -102,7 +102,17 @@ func specs() map[string]propSpec {
 	if v := os.Getenv("VH_MAXN"); v != "" {
 		fmt.Sscan(v, &o.MaxN)
 	}
-	m["C01"] = propSpec{opts: o, gen: baseGen(o), corpus: scaleCorpus, oracle: layoutThen(oracleC01), rule: "random multigraphs up to 14 nodes per part (cycles, parallel and antiparallel edges, self-loops, several components) x every production algorithm x both orderings x size options x thoroughness; a corpus of large structured inputs first; watchdog: 20 s and 4 GiB per call, confirmed in a child process; spline routing in child processes under a 4 s limit (coverage.spline_routing)"}
+	oDec := o
+	oDec.Decimal = 100
+	m["C01"] = propSpec{opts: o, gen: func(r *Rng) Case {
+		if r.Bool(25) {
+			// sizes like 33.3 and 100.1: coordinates are rounded sums, and a loop that waits for an exact equality may spin
+			c := genCase(r, oDec)
+			c.Kind += "+decimal"
+			return c
+		}
+		return genCase(r, o)
+	}, corpus: scaleCorpus, oracle: layoutThen(oracleC01), rule: "random multigraphs up to 14 nodes per part (cycles, parallel and antiparallel edges, self-loops, several components) x every production algorithm x both orderings x size options x thoroughness; a corpus of large structured inputs first; watchdog: 20 s and 4 GiB per call, confirmed in a child process; spline routing in child processes under a 4 s limit (coverage.spline_routing)"}
 
 	o = full
 	o.P4 = []string{"sink", "valign", "packright", "bk", "bk0", "bk1", "bk2", "bk3"}
